@@ -112,6 +112,14 @@ def run(ctx):
                 for st, st2 in ((1, 1), (-1, -1), (1, -1)):
                     ctx.guard(check_case, {"word": wd, "feats": feats_to_json(
                         [Feat(2, "u2", (), ((a[0], a[1], st), (b[0], b[1], st2)))]), "k": (a[0] + b[1]) % (n + 1)})
+    # three-part `source` features that begin at 0 and finish at the end of the record (joined or ordered): only the
+    # one-part whole-length `source` is left where it is by a rotation, on either strand
+    for n in ((4,) if ctx.tier == "quick" else (3, 4, 5)):
+        wd = "AcGNt"[:n]
+        for j_, ps in enumerate(gen.source_lookalikes(n)):
+            for st in (1, -1):
+                ctx.guard(check_case, {"word": wd, "feats": feats_to_json(
+                    [Feat(0, "u%d" % (1 + j_ % 2), (), tuple((s_, e_, st) for s_, e_ in ps))]), "k": (1, n - 1)[j_ % 2]})
     ctx.extra["cov_small_scope"] = "all one- and two-part locations on records of length 1..{}, every rotation in [-n, n]".format(top)
     for _ in range(ctx.budget(1500, 60000)):
         ctx.guard(check_case, gen_case(ctx.rng))
